@@ -58,7 +58,7 @@ Silent == /\ InTrace /\ SilentNext /\ UNCHANGED tvars
 
 EndTrace == /\ InTrace /\ Log[l].ev = "endtrace"
             /\ returned
-            /\ PrintT(<<"ACCEPT", ToJson([id |-> tid, viol |-> g.viol])>>)
+            /\ PrintT(<<"ACCEPT", ToJson([id |-> tid, viol |-> g.viol, sent |-> g.sent, execs |-> Cardinality(g.execs)])>>)
             /\ BlankNext
             /\ l' = l + 1 /\ tid' = 0
 
